@@ -422,7 +422,9 @@ def havoc_loop(vn, s, st):
                 if isinstance(x, ast.Name):
                     written.add(x.id)
     seen = set()
-    for n in ast.walk(s):
+    import copy as _copy
+    s_canon = _canon_compare(_copy.deepcopy(s))     # the order in which the loop's inputs are listed must not depend on `a < b` vs `b > a`
+    for n in ast.walk(s_canon):
         if isinstance(n, (ast.Name, ast.Attribute)) and isinstance(getattr(n, "ctx", None), ast.Load):
             k = vn.key_of(n)
             if k and k not in seen and (k in st.env):
@@ -435,12 +437,21 @@ def havoc_loop(vn, s, st):
     return [st]
 
 
+def _canon_compare(t):
+    """`a < b` and `b > a` are one comparison: one direction is kept (in place, on a copy owned by the caller)"""
+    for n in ast.walk(t):
+        if isinstance(n, ast.Compare) and len(n.ops) == 1 and isinstance(n.ops[0], (ast.Lt, ast.LtE)):
+            n.left, n.comparators = n.comparators[0], [n.left]
+            n.ops = [ast.Gt() if isinstance(n.ops[0], ast.Lt) else ast.GtE()]
+    return t
+
+
 def _loop_sig(s):
     """alpha-invariant signature of a loop: plain names are numbered by first appearance before hashing, so that renaming a local
     does not change the opaque value the loop stands for (attribute names, constants and structure still count)"""
     import copy
     import hashlib
-    t = copy.deepcopy(s)
+    t = _canon_compare(copy.deepcopy(s))
     canon = {}
     for n in ast.walk(t):
         if isinstance(n, ast.Name):
